@@ -33,7 +33,7 @@ var Shapes = []Shape{
 	{"classes", []string{`[ab]`, `[^ab]`, `\w`, `\W`, `\d`, `\D`, `\s`, `\S`, `[a-c\d]`, `[^\w]`, `\p{Lu}`, `\P{Lu}`, `[\p{Ll}x]`, `.`, `(?s).`, `[\n]`, `[^\n]`, `\p{Greek}`}},
 	{"case", []string{`(?i)a`, `(?i)[a-c]`, `(?i)[^a]`, `(?i)abc`, `(?i)(a)\1`, `(?i)k`, `(?i)é`, `(?i)σ`, `(?i)[α-γ]`, `(?i)ж`, `(?i)a*B`, `(?i)ab|cd`, `(?i)\x41`, `(?i)[A-Z]b`}},
 	{"groups", []string{`(a)(?<x>b)(c)`, `(?<x>a)|(?<x>b)`, `(?<x>a)(b)`, `(a)(?<y>b)(?<x>c)`, `(?n)(a)(?<x>b)`, `(?<x>a)\k<x>`, `((a)(b))`, `(a(b(c)))`}},
-	{"options", []string{`(?i)a(?-i)b`, `a(?i)b`, `(?i:a)b`, `(?s).(?-s).`, `(?m)^a(?-m)$`, `(?i)(?:a(?-i)b)c`, `(?x) a b # c`, `(?x)a\ b`, `(?n)(a)(b)`, `(?i:a|B)c`, `a(?i:b)c`}},
+	{"options", []string{`(?n:(?i)a)(b)`, `(?-n:(?i)(a))(b)`, `(?x:(?i) a )(b)`, `(?n:(?m)^a)(b)(c)`, `(?i:(?n)(a)b)(c)`, `((?n)(a)(?-n)(b))(c)`, `(?n:a(?-n:(b))c)(a)`, `(?s:(?i)a.)(b)`, `(?x: a (?-x: b)c )(d)`, `(?n)(a)(?-n)(b)`, `(?i)a(?-i)b`, `a(?i)b`, `(?i:a)b`, `(?s).(?-s).`, `(?m)^a(?-m)$`, `(?i)(?:a(?-i)b)c`, `(?x) a b # c`, `(?x)a\ b`, `(?n)(a)(b)`, `(?i:a|B)c`, `a(?i:b)c`}},
 }
 
 // ShapePats returns the shape library as patterns (with ASTs where parsable under options 0).
